@@ -29,6 +29,7 @@ var checks = map[string]func(*core.Ctx){
 	"C08": reqsim.Run,
 	"C09": subs.Run,
 	"C10": storesim.RunC10,
+	"C11": storesim.RunC11,
 	"C15": qevent.Run,
 	"C16": racer.Run,
 	"C17": pattern.Run,
